@@ -77,6 +77,9 @@ def gen_mol_spec(rng, cfg, small=False):
     if r < cfg.get('file_share', 0.3) and not small:
         f = rng.choice(cfg.get('files') or FILES)
         spec = {'k': 'file', 'f': f, 'i': rng.randrange(400)}
+    elif small and r < cfg.get('file_share', 0.3):
+        # members of reactions: small records that carry 2D coordinates and wedge bonds
+        spec = {'k': 'file', 'f': rng.choice(['isomorphism.sdf', 'isomorphism.sdf', 'mcs.sdf', 'hbonds.sdf']), 'i': rng.randrange(400)}
     else:
         spec = {'k': 'smi', 's': rng.choice(SMILES_POOL), 'edits': []}
         for _ in range(rng.choice([0, 0, 1, 1, 2, 3])):
@@ -287,11 +290,13 @@ def record_view(rec, fmt, stereo=True):
     if isinstance(rec, ReactionContainer):
         return {'kind': 'rxn', 'r': [mol_view(m, stereo) for m in rec.reactants],
                 'p': [mol_view(m, stereo) for m in rec.products], 'a': [mol_view(m, stereo) for m in rec.reagents],
-                'name': rec.name.strip(), 'meta': norm_meta(rec._meta, fmt)}
+                'name': rec.name.strip(), 'meta': norm_meta(rec._meta, fmt),
+                'unparsed': 'chython_unparsed_metadata' in (rec._meta or {})}
     v = mol_view(rec, stereo)
     v['kind'] = 'mol'
     v['name'] = rec.name.strip()
     v['meta'] = norm_meta(rec._meta, fmt)
+    v['unparsed'] = 'chython_unparsed_metadata' in (rec._meta or {})
     return v
 
 
@@ -322,7 +327,7 @@ def diff_field(d):
     if d is None:
         return None
     p = d.split(':', 1)[0]
-    for f in ('atoms', 'bonds', 'stereo', 'name', 'meta', 'kind'):
+    for f in ('atoms', 'bonds', 'stereo', 'name', 'meta', 'kind', 'unparsed'):
         if '.' + f in p:
             return f
     return 'roles' if p.startswith(('.r', '.p', '.a')) or 'len' in d else 'other'
